@@ -8,8 +8,9 @@ PROP = {'level': 'proof',
           'unreachable), and the first early exit gives panic / divergence / return-from-caller, never an '
           "array; collect_const!'s length pass and fill pass agree and even with disagreeing passes the "
           'length==CAP assert excludes an unwritten slot; ArrayBuilder refines a bounded vector for every '
-          'push/clone/build/drop history. That break/continue/return/panic have their Rust meaning inside '
-          'the expansion is observed (generated programs), not proved.',
+          'push/clone/build/drop history (the model is generic in the element type; zero-sized element types '
+          'are exercised through the same model with count observations). That break/continue/return/panic '
+          'have their Rust meaning inside the expansion is observed (generated programs), not proved.',
  'sources': [('harness', 'c11'), ('programs', 'c11')],
  'exhaustive': True,
  'rule': 'Exhaustive: every ArrayBuilder history over {push, clone-keep-clone, clone-drop-clone} up to depth '
@@ -18,7 +19,13 @@ PROP = {'level': 'proof',
          "0..=3 (quick) / 0..=4 (thorough) x {no exit, break, continue, continue-once, return, break 'outer, "
          "continue 'outer, panic} at every index, inside a fn (2 s cap) and as a const initialiser (lengths "
          '0,1,3; 8 s cap); collect_const! over 0..n (n<=4 quick / 5 thorough), with and without a filter, '
-         'with break/continue/return/panic at every item.',
+         'with break/continue/return/panic at every item. ZERO-SIZED elements (size_of::<[T;N]>() == 0, so '
+         'only the element COUNT can protect build()): every builder history over the same alphabet up to '
+         'depth 4 (quick) / 6 (thorough) with a zero-sized token observed as counts (created / dropped / '
+         'moved tokens, lengths); map_!/from_fn_! with a zero-sized output token and every early exit at '
+         'every index inside a fn, map!/from_fn! with the exits that cannot spin, and map_!/from_fn_! '
+         'producing [(); N] as const initialisers (lengths 1,3); builder histories containing a clone whose '
+         'element Clone panics on its j-th call (depth 4 / 5).',
  'explanation': 'Theorems (Props/C11.lean) are about the Lean model of the emitted loops; the transcripts '
                 'tie the model to the code (real macros expanded by rustc, real ArrayBuilder) and the std '
                 'reference to real std.',
